@@ -334,3 +334,38 @@ def silf_full_map(gid_a, max_glyph, n_next, extra=()):
     w.extend(action)
     w[o_passes + 4:o_passes + 8] = struct.pack('>I', len(w) - sub)
     return bytes(w)
+
+
+def silf_many_rules(n_rules, sort_key, n_glyph_max=0):
+    """a Silf (version 2, one pass) whose pass declares n_rules rules that all carry the same 16-bit sort key and have empty constraint and
+    action code: every structural check of Pass::readPass holds, so the loader reaches readRules with counts at their 16-bit limits"""
+    pw = bytearray()
+    def u8(v): pw.append(v & 255)
+    def u16(v): pw.extend(struct.pack('>H', v & 0xFFFF))
+    def u32(v): pw.extend(struct.pack('>I', v & 0xFFFFFFFF))
+    for v in (0, 1, 1, 0): u8(v)
+    u16(n_rules); u16(0)
+    at_pc = len(pw); u32(0); u32(0); u32(0); u32(0)
+    for v in (1, 0, 1, 1): u16(v)
+    for v in (1, 0, 0, 0): u16(v)
+    u16(0); u16(0); u16(0)
+    u16(0); u16(0)
+    u8(0); u8(0)
+    u16(0)
+    pw.extend(struct.pack('>H', sort_key & 0xFFFF) * n_rules)
+    pw.extend(bytes(n_rules))
+    u8(0); u16(0)
+    pw.extend(bytes(2 * (n_rules + 1))); pw.extend(bytes(2 * (n_rules + 1)))
+    u8(0)
+    code_off = len(pw)
+    sw = bytearray()
+    sw.extend(struct.pack('>HHH', n_glyph_max, 0, 0))
+    sw.extend(bytes([1, 0, 1, 1, 0xFF, 0, 0, 0, 0, 0, 0, 0, 0, 0]))
+    sw.extend(struct.pack('>H', 0)); sw.extend(bytes([0, 0, 1, 0, 0, 0, 0, 0, 0, 0])); sw.extend(struct.pack('>H', 0))
+    at_po = len(sw); sw.extend(bytes(8))
+    sw.extend(struct.pack('>HHHH', 0, 0, 0, 0))
+    sw.extend(struct.pack('>HHH', 0, 0, 6)); sw.extend(struct.pack('>H', 0))
+    pass_start = len(sw)
+    sw[at_po:at_po + 8] = struct.pack('>II', pass_start, pass_start + len(pw))
+    pw[at_pc:at_pc + 12] = struct.pack('>III', pass_start + code_off, pass_start + code_off, pass_start + code_off)
+    return struct.pack('>IHHI', 0x00020000, 1, 0, 12) + bytes(sw) + bytes(pw)
